@@ -3,6 +3,7 @@ package kmodel
 import (
 	"context"
 	"fmt"
+	jsonpatch "github.com/evanphx/json-patch/v5"
 	"reflect"
 	"sort"
 	"strings"
@@ -90,12 +91,15 @@ type Hook interface {
 
 // Client implements client.Client on a Store.
 type Client struct {
-	S      *Store
-	Sch    *runtime.Scheme
-	Map    apimeta.RESTMapper
-	Hook   Hook
-	Actor  string
-	Cached bool // marks requests as served from a cache view (informational)
+	S     *Store
+	Sch   *runtime.Scheme
+	Map   apimeta.RESTMapper
+	Hook  Hook
+	Actor string
+	// Manager is the field manager the API server derives from the client's user agent for
+	// writes that name none (binary name, e.g. package-operator-manager).
+	Manager string
+	Cached  bool // marks requests as served from a cache view (informational)
 	// Filter, when set, hides objects for which it returns false (cache label selector).
 	Filter func(c map[string]any) bool
 	// ListHide hides the given keys from List and Get answers (a lagging informer cache).
@@ -141,6 +145,18 @@ func (c *Client) after(r *Request, err error) error {
 		return c.Hook.After(r)
 	}
 	return err
+}
+
+// answer is what a read or write response carries for stored object o: its content plus the
+// metadata.managedFields of the model (the stored content itself never holds them).
+func answer(o *Obj) map[string]any {
+	mf := o.ManagedFields()
+	if len(mf) == 0 {
+		return o.Content
+	}
+	c := runtime.DeepCopyJSON(o.Content)
+	meta(c)["managedFields"] = mf
+	return c
 }
 
 // ToContent converts any client.Object into JSON content plus its GVK.
@@ -222,7 +238,7 @@ func (c *Client) Get(_ context.Context, key client.ObjectKey, obj client.Object,
 		res = apierrors.NewNotFound(gr(k), k.Name)
 	} else {
 		r.Resp = o.Content
-		if err := FromContent(o.Content, obj); err != nil {
+		if err := FromContent(answer(o), obj); err != nil {
 			return err
 		}
 	}
@@ -275,7 +291,7 @@ func (c *Client) List(_ context.Context, list client.ObjectList, opts ...client.
 				continue
 			}
 		}
-		items = append(items, runtime.DeepCopyJSON(o.Content))
+		items = append(items, runtime.DeepCopyJSON(answer(o)))
 	}
 	if ul, ok := list.(*unstructured.UnstructuredList); ok {
 		ul.Items = nil
@@ -314,13 +330,39 @@ func (c *Client) write(obj client.Object, r *Request, do func(k Key, body map[st
 	if err := c.before(r); err != nil {
 		return err
 	}
+	var preDigest string
+	if o := c.S.Objs[k]; o != nil {
+		preDigest = Digest(o.Content)
+	}
 	res, serr := do(k, body)
 	if serr != nil {
 		return c.after(r, serr)
 	}
+	// a client-side write (anything but apply) to the main resource that changed something leaves
+	// a managedFields entry {manager, Update}
+	if o := c.S.Objs[k]; o != nil && !r.DryRun && r.Sub == "" && r.PatchType != "apply" && Digest(o.Content) != preDigest {
+		m := r.Manager
+		if m == "" {
+			m = c.Manager
+		}
+		if LegacyManagers[m] {
+			if l := o.withLegacy(m); len(l) != len(o.Legacy) {
+				no := *o
+				no.Legacy = l
+				c.S.Objs[k] = &no
+			}
+		}
+	}
 	r.Resp = res
 	if res != nil {
-		if err := FromContent(res, obj); err != nil {
+		out := res
+		if o := c.S.Objs[k]; o != nil && !r.DryRun {
+			if mf := o.ManagedFields(); len(mf) > 0 {
+				out = runtime.DeepCopyJSON(res)
+				meta(out)["managedFields"] = mf
+			}
+		}
+		if err := FromContent(out, obj); err != nil {
 			return err
 		}
 	}
@@ -412,6 +454,61 @@ func (c *Client) patch(obj client.Object, patch client.Patch, sub string, opts [
 		if err := kjson.Unmarshal(data, &pbody); err != nil {
 			return apierrors.NewBadRequest(err.Error())
 		}
+	case types.JSONPatchType:
+		r.PatchType = "json"
+		jp, err := jsonpatch.DecodePatch(data)
+		if err != nil {
+			return apierrors.NewBadRequest(err.Error())
+		}
+		var ops []any
+		_ = kjson.Unmarshal(data, &ops)
+		r.Body = map[string]any{"jsonPatch": ops}
+		if sub != "" {
+			panic("kmodel: JSON patch on a subresource not modelled")
+		}
+		return c.write(obj, r, func(k Key, _ map[string]any) (map[string]any, *apierrors.StatusError) {
+			old := c.S.Objs[k]
+			if old == nil {
+				return nil, apierrors.NewNotFound(gr(k), k.Name)
+			}
+			doc, _ := kjson.Marshal(answer(old))
+			nb, err := jp.Apply(doc)
+			if err != nil {
+				return nil, apierrors.NewInvalid(schema.GroupKind{Group: k.Group, Kind: k.Kind}, k.Name, nil)
+			}
+			var neu map[string]any
+			if err := kjson.Unmarshal(nb, &neu); err != nil {
+				return nil, apierrors.NewBadRequest(err.Error())
+			}
+			// a resourceVersion in the patched document is the optimistic-concurrency precondition
+			if rv, _ := meta(neu)["resourceVersion"].(string); rv != RVOf(old.Content) {
+				return nil, apierrors.NewConflict(gr(k), k.Name, fmt.Errorf("the object has been modified; please apply your changes to the latest version and try again"))
+			}
+			// managedFields are server-side bookkeeping: take over what the patch left of the tracked entries
+			var legacy []string
+			if l, ok := meta(neu)["managedFields"].([]any); ok {
+				for _, e := range l {
+					m, _ := e.(map[string]any)
+					name, _ := m["manager"].(string)
+					sr, _ := m["subresource"].(string)
+					if m["operation"] == "Update" && sr == "" && LegacyManagers[name] {
+						legacy = append(legacy, name)
+					}
+				}
+			}
+			sort.Strings(legacy)
+			delete(meta(neu), "managedFields")
+			res, serr := c.S.Update(k, neu, "", dry)
+			if serr != nil || dry {
+				return res, serr
+			}
+			if o := c.S.Objs[k]; o != nil {
+				no := *o
+				no.Legacy = legacy
+				c.S.Objs[k] = &no
+			}
+			return res, nil
+		})
 	default:
 		panic(fmt.Sprintf("kmodel: patch type %s not modelled", patch.Type()))
 	}
